@@ -463,6 +463,26 @@ fn mutants_of(t: &[u8], trunc_step: usize) -> Vec<Vec<u8>> {
     out
 }
 
+/// compile-time function grid: every defmac extension function x every argument list of length 0..3 over a boundary alphabet
+const EXT_FUNS: [&str; 10] = ["string?", "number?", "symbol?", "string->symbol", "symbol->string", "string->number", "number->string", "string-append", "string-length", "substring"];
+const EXT_ARGS: [&str; 11] = ["\"hello\"", "\"\"", "0", "1", "5", "6", "-1", "(q . sym)", "(q . (1 2))", "()", "99999999999999999999"];
+
+/// the quick tier uses 7 of the 11 argument values
+const EXT_ARGS_QUICK: [u8; 7] = [0, 1, 2, 3, 5, 7, 9];
+
+fn ext_grid_n(thorough: bool) -> u64 {
+    EXT_FUNS.len() as u64 * strings_upto_count(if thorough { EXT_ARGS.len() } else { EXT_ARGS_QUICK.len() }, 3)
+}
+
+fn ext_grid_text(i: u64, thorough: bool) -> Vec<u8> {
+    let alpha: Vec<u8> = if thorough { (0..EXT_ARGS.len() as u8).collect() } else { EXT_ARGS_QUICK.to_vec() };
+    let per = strings_upto_count(alpha.len(), 3);
+    let f = EXT_FUNS[(i / per) as usize % EXT_FUNS.len()];
+    let idx = strings_upto_get(&alpha, i % per);
+    let args: Vec<&str> = idx.iter().map(|k| EXT_ARGS[*k as usize]).collect();
+    format!("(mod (X) (include *standard-cl-23*) (defmac M () ({}{}{})) (c (M) X))", f, if args.is_empty() { "" } else { " " }, args.join(" ")).into_bytes()
+}
+
 struct Space {
     name: String,
     bound: String,
@@ -504,6 +524,7 @@ impl Plan {
             Space { name: "seed-mutations".into(), bound: "13 hand-written seed programs (one per construct family and dialect): the seed, every single-token deletion, duplication and adjacent swap, every truncation at every byte offset; all 13 text entry points".into(), n: self.seed_mutants.len() as u64, chunk: 25 },
             Space { name: "shipped-mutations".into(), bound: format!("sources under resources/tests (up to {} bytes, first {} by path): same token mutations, truncation at every {} byte; all entry points", if t { 6000 } else { 600 }, if t { 120 } else { 8 }, if t { "1st" } else { "7th" }), n: self.shipped_mutants.len() as u64, chunk: 25 },
             Space { name: "raw-bytes".into(), bound: format!("every byte string of length 0..2 and every string of length 3{} over the 31 byte-class representatives; deserialise, hex reader, assemble for all; classic compile and repl for the shortest strings (thorough: for all up to 2 bytes, repl for all)", if t { "..4" } else { "" }), n: bytes_upto_count(2) + (CLASS.len() as u64).pow(3) + if t { (CLASS.len() as u64).pow(4) } else { 0 }, chunk: 4000 },
+            Space { name: "compile-time-functions".into(), bound: "every defmac extension function (string? number? symbol? string->symbol symbol->string string->number number->string string-append string-length substring) applied inside a defmac body to every argument list of length 0..3 over boundary values (quick 7: a string, the empty string, 0, 1, 6, a symbol, nil; thorough 11: also 5, -1, a list, a 20-digit number); compiled as cl23 (thorough: and strict-cl21)".into(), n: ext_grid_n(t), chunk: 250 },
             Space { name: "include-file-variants".into(), bound: "a fixed host program that includes one file, with that file's contents ranging over: empty, blank, unbalanced, every soup of <= 2 tokens, and all token mutations/truncations of a small include file; compile (2 dialects), dependencies, preprocess".into(), n: self.include_variants.len() as u64, chunk: 60 },
         ]
     }
@@ -515,6 +536,7 @@ impl Plan {
             "soup-all-entries" => soup_text(i),
             "soup-light-entries" => soup_text(strings_upto_count(SOUP.len(), if self.thorough { 4 } else { 3 }) + i),
             "raw-bytes" => self.raw_bytes(i),
+            "compile-time-functions" => ext_grid_text(i, self.thorough),
             _ => vec![],
         }
     }
@@ -568,6 +590,14 @@ impl Plan {
                     run_case(st, &bytes, &[("repl", e_repl)], None, sub, false);
                 }
             }
+            "compile-time-functions" => {
+                let t = ext_grid_text(i, self.thorough);
+                run_case(st, &t, &[("compile-cl23", e_compile_cl23)], None, sub, true);
+                if self.thorough {
+                    let t2 = String::from_utf8_lossy(&t).replace("*standard-cl-23*", "*strict-cl-21*").into_bytes();
+                    run_case(st, &t2, &[("compile-strict-cl21", e_compile_strict21)], None, sub, true);
+                }
+            }
             "include-file-variants" => {
                 let path = format!("{}/inc.clinc", tmp);
                 std::fs::write(&path, &self.include_variants[i as usize]).expect("write include file");
@@ -613,7 +643,9 @@ fn probe_entry(name: &str, text: &[u8]) -> bool {
         match child.try_wait() {
             Ok(Some(st)) => break !st.success(),
             Ok(None) => {
-                if start.elapsed() > Duration::from_millis(PER_CASE_MS + 2000) {
+                // CPU-time limit (load-independent), with a wall-clock backstop
+                let cpu = crate::par::proc_cpu_ms(child.id()).unwrap_or(0);
+                if cpu > PER_CASE_MS + 2000 || start.elapsed() > Duration::from_millis(PER_CASE_MS * 30) {
                     let _ = child.kill();
                     let _ = child.wait();
                     break true;
@@ -662,7 +694,7 @@ pub fn c14(thorough: bool, replay: Option<String>) -> i32 {
         }
     }
     let mut rep = Report::new("C14", tier, "exploration");
-    rep.rule = "every input of the stated finite sets is given to every listed entry point inside an isolated worker process (512 MiB stack, 10 s wall limit per case): a panic (caught, identified by its source site), a process abort / stack overflow (worker death, bisected to the single case) or a timeout is a violation; \
+    rep.rule = "every input of the stated finite sets is given to every listed entry point inside an isolated worker process (512 MiB stack, 10 s CPU-time limit per case with a wall-clock backstop): a panic (caught, identified by its source site), a process abort / stack overflow (worker death, bisected to the single case) or a timeout is a violation; \
         every located error of the modern compiler must name the input, a readable include file or a built-in pseudo-file and lie inside that text. non-trivial = distinct (entry point, input) pairs that returned Ok, plus distinct (entry point, error message) pairs"
         .to_string();
     rep.assumptions = vec!["'never loops forever' is decided as: finishes within 10 s on this machine".to_string(), "parenthesis nesting of generated inputs is far below 200 by construction".to_string(), "the Python/wasm binding layers themselves are not exercised; their Rust entry points are".to_string()];
@@ -696,6 +728,12 @@ pub fn c14(thorough: bool, replay: Option<String>) -> i32 {
                     culprit = name.to_string();
                     break;
                 }
+            }
+            if culprit == "unidentified" && !crate::par::death_reproduces("C14", tier, &sp.name, i) {
+                // no entry point dies on this input when run alone, and neither does the whole case: a transient
+                // of the machine (memory pressure, scheduling), not a behaviour of the code - never a verdict
+                st.count("worker-death-not-reproduced(machinery, no verdict)", 1);
+                continue;
             }
             let class = if String::from_utf8_lossy(&text).contains("(&") { "lambda-with-captures" } else { "other" };
             let sig = if culprit == "usecheck" && calls_a_function_twice(&text) { "nontermination/usecheck/recursive-program".to_string() } else { format!("{}/{}/{}", kind, culprit, class) };
